@@ -1,5 +1,6 @@
 import Driver.Util
 import Typegen.Classes
+import Typegen.Attr
 /-! ops on type expressions: `typeStr`, `parseTS`, `site`, `prefix` (C05, C18, C01, C02) -/
 open Lean
 namespace Drv
@@ -140,6 +141,42 @@ def renderAt (site mode : String) (m : Mappings) (t : TS) : Str :=
   | "chan", _ => visitTs m t
   | _, _ => addPrefix (visitTs m t)          -- ret, event
 
+mutual
+/-- mapped custom names replaced by the primitive they are mapped to -/
+def substPrim (m : Mappings) : TS → TS
+  | .prim p => .prim p
+  | .array t => .array (substPrim m t)
+  | .map k v => .map (substPrim m k) (substPrim m v)
+  | .set t => .set (substPrim m t)
+  | .tuple ts => .tuple (substPrimL m ts)
+  | .optional t => .optional (substPrim m t)
+  | .result t => .result (substPrim m t)
+  | .custom n => match lookup m n with | some tgt => .prim tgt | none => .custom n
+def substPrimL (m : Mappings) : TSList → TSList
+  | .nil => .nil
+  | .cons t ts => .cons (substPrim m t) (substPrimL m ts)
+end
+mutual
+def mentionsMapped (m : Mappings) : TS → Bool
+  | .prim _ => false
+  | .array t | .set t | .optional t | .result t => mentionsMapped m t
+  | .map k v => mentionsMapped m k || mentionsMapped m v
+  | .tuple ts => mentionsMappedL m ts
+  | .custom n => (lookup m n).isSome
+def mentionsMappedL (m : Mappings) : TSList → Bool
+  | .nil => false
+  | .cons t ts => mentionsMapped m t || mentionsMappedL m ts
+end
+
+/-- remove every `.coerce` (a mapped `number` is `z.number()`, a Rust number `z.coerce.number()`) -/
+def decoerce (s : Str) : Str :=
+  match s with
+  | [] => []
+  | c :: cs =>
+    if L.startsWith (c :: cs) ".coerce".toList then decoerce (cs.drop 6) else c :: decoerce cs
+termination_by s.length
+decreasing_by all_goals simp_wf <;> omega
+
 def opSite (inp imp : Json) : Except String Json := do
   let r ← rtyOfJson (← inp.getObjVal? "rty")
   let site ← getS inp "site"
@@ -161,6 +198,21 @@ def opSite (inp imp : Json) : Except String Json := do
     match txt with
     | none => [("nopanic", false)]
     | some x => [("denotes", (parseTsTy x.toList).map norm == some expected)]
+  -- C18: the mapped rendering is the unmapped rendering of the substituted type, the mapped name never
+  -- appears, and a type that mentions no mapped name renders exactly as without the table
+  let mapOr : List (String × Bool) :=
+    if m.isEmpty then [] else
+    let tS := structOf r
+    let substituted := renderAt site mode [] (substPrim m tS)
+    let implNomap := (getS imp "rendered_nomap").toOption
+    let mappedNames := m.map (·.1)
+    (match implR with
+     | some x =>
+       [("mapping_is_substitution", decoerce x.toList == decoerce substituted || !commaSafeB r || !precSafe tS ||
+            (qual && !prefixSafe m tS)),
+        ("mapped_name_absent", mappedNames.all fun n => !(A.containsSub n x.toList) || (lookup m n == some n))]
+     | none => []) ++
+    (if !mentionsMapped m t then [("unmapped_identical", implR == implNomap)] else [])
   let classes : List String :=
     (if !wfB r then ["unsupported"] else []) ++
     (if !commaSafeB r then ["K05_commaUnsafe"] else []) ++
@@ -168,7 +220,7 @@ def opSite (inp imp : Json) : Except String Json := do
     (if qual && !prefixSafe m (structOf r) then ["K02a_prefixUnsafe"] else [])
   pure <| obj [("model", obj [("str", jstr s), ("ts", tsToJson t), ("rendered", jstr rendered)]),
     ("agree", jb agree),
-    ("oracle_impl", obj ((orc implR).map fun p => (p.1, jb p.2))),
+    ("oracle_impl", obj ((orc implR ++ mapOr).map fun p => (p.1, jb p.2))),
     ("oracle_model", obj ((orc (some (String.ofList rendered))).map fun p => (p.1, jb p.2))),
     ("expected", tsTyToJson expected),
     ("nontrivial", jb (size r ≥ 2)),
